@@ -151,8 +151,15 @@ func failedAncestors(ts []realTask) map[string]bool {
 }
 
 // TestC08Real: failure handling and verdict with the real task runner.
-func TestC08Real(t *testing.T) {
-	col := ev.Get("C08", "realrunner", "real TaskRunner and real processes: a generated graph of 2-5 tasks (each 'vhelper hang --for 5-90ms --exit N'), a quarter of the tasks failing (with an exit status, or - a quarter of those - with a script that does not parse, i.e. without exit status), a quarter marked allow_failure, fail-fast or continue_running_tasks_after_failure; oracle from the final report and from which helper processes actually started: a task with a failed non-allowed ancestor never starts; continue => every task without such an ancestor runs to its end, job completed, not canceled, last error set; fail-fast => job ends with an error; plain success iff every task succeeded or failed under allow_failure; exit codes and errored flags of the tasks agree with the scripts; non-trivial = a non-allowed failure with a dependent task, or an allowed failure with a dependent; distinct by graph Failing tasks fail with an exit status, with a script that does not parse, or because their last command is killed by a signal nobody of the runner sent (exit 137).")
+func TestC08Real(t *testing.T) { realGraphs(t, "C08") }
+
+// TestC02Real: the same cases decide C02 with the real task runner - a task begins only after every task it depends
+// on has finished successfully, also when "not successfully" means that its process died from a signal or that its
+// script could not be interpreted; a job reported as a plain success has run every task.
+func TestC02Real(t *testing.T) { realGraphs(t, "C02") }
+
+func realGraphs(t *testing.T, prop string) {
+	col := ev.Get(prop, "realrunner", "real TaskRunner and real processes: a generated graph of 2-5 tasks (each 'vhelper hang --for 5-90ms --exit N'), a quarter of the tasks failing (with an exit status, or - a quarter of those - with a script that does not parse, i.e. without exit status), a quarter marked allow_failure, fail-fast or continue_running_tasks_after_failure; oracle from the final report and from which helper processes actually started: a task with a failed non-allowed ancestor never starts; continue => every task without such an ancestor runs to its end, job completed, not canceled, last error set; fail-fast => job ends with an error; plain success iff every task succeeded or failed under allow_failure; exit codes and errored flags of the tasks agree with the scripts; non-trivial = a non-allowed failure with a dependent task, or an allowed failure with a dependent; distinct by graph Failing tasks fail with an exit status, with a script that does not parse, or because their last command is killed by a signal nobody of the runner sent (exit 137).")
 	vh := helper(t)
 	rapid.Check(t, func(rt *rapid.T) {
 		ts := genRealGraph(rt, 5, true)
@@ -172,7 +179,7 @@ func TestC08Real(t *testing.T) {
 		v, ok := w.waitDone(job.ID, 30*time.Second)
 		desc := fmt.Sprintf("graph [%s] continue=%v", describeGraph(ts), cont)
 		if !ok {
-			rt.Fatalf("[C08] %s: the job does not finish", desc)
+			rt.Fatalf("["+prop+"] %s: the job does not finish", desc)
 		}
 		blocked := failedAncestors(ts)
 		anyFail, nontrivial := false, false
@@ -196,7 +203,7 @@ func TestC08Real(t *testing.T) {
 				started = tv.Status == "done" || tv.Status == "error" // no process ever starts; the report says whether the task was run
 			}
 			if blocked[tk.name] && started {
-				rt.Fatalf("[C08] %s: task %s ran although it depends on a failed task", desc, tk.name)
+				rt.Fatalf("["+prop+"] %s: task %s ran although it depends on a failed task", desc, tk.name)
 			}
 			if tk.fails() && !tk.allowFail {
 				if !blocked[tk.name] {
@@ -221,41 +228,41 @@ func TestC08Real(t *testing.T) {
 			}
 			if !stopped && (started && tv.Status == "done" || tv.Status == "error") {
 				if tk.exit != 0 && !tk.allowFail && (tv.Status != "error" || !tv.Errored || int(tv.ExitCode) != tk.exit) {
-					rt.Fatalf("[C08] %s: task %s exits with %d but is reported status=%s errored=%v exitCode=%d", desc, tk.name, tk.exit, tv.Status, tv.Errored, tv.ExitCode)
+					rt.Fatalf("["+prop+"] %s: task %s exits with %d but is reported status=%s errored=%v exitCode=%d", desc, tk.name, tk.exit, tv.Status, tv.Errored, tv.ExitCode)
 				}
 				if tk.exit != 0 && tk.allowFail && (tv.Errored || tv.Status == "error" || int(tv.ExitCode) != tk.exit) {
-					rt.Fatalf("[C08] %s: task %s fails under allow_failure (exit %d) but is reported status=%s errored=%v exitCode=%d", desc, tk.name, tk.exit, tv.Status, tv.Errored, tv.ExitCode)
+					rt.Fatalf("["+prop+"] %s: task %s fails under allow_failure (exit %d) but is reported status=%s errored=%v exitCode=%d", desc, tk.name, tk.exit, tv.Status, tv.Errored, tv.ExitCode)
 				}
 				if tk.parseErr && !tk.allowFail && (tv.Status != "error" || !tv.Errored) {
-					rt.Fatalf("[C08] %s: task %s has a script that does not parse but is reported status=%s errored=%v", desc, tk.name, tv.Status, tv.Errored)
+					rt.Fatalf("["+prop+"] %s: task %s has a script that does not parse but is reported status=%s errored=%v", desc, tk.name, tv.Status, tv.Errored)
 				}
 				if tk.parseErr && tk.allowFail && tv.Status == "error" {
-					rt.Fatalf("[C08] %s: task %s fails under allow_failure (script does not parse) but is reported with status error", desc, tk.name)
+					rt.Fatalf("["+prop+"] %s: task %s fails under allow_failure (script does not parse) but is reported with status error", desc, tk.name)
 				}
 				if !tk.fails() && (tv.Errored || tv.Status != "done") {
-					rt.Fatalf("[C08] %s: task %s succeeds but is reported status=%s errored=%v", desc, tk.name, tv.Status, tv.Errored)
+					rt.Fatalf("["+prop+"] %s: task %s succeeds but is reported status=%s errored=%v", desc, tk.name, tv.Status, tv.Errored)
 				}
 			}
 			if v.Completed && tv.Status == "running" {
-				rt.Fatalf("[C08] %s: the job is completed but task %s is reported running", desc, tk.name)
+				rt.Fatalf("["+prop+"] %s: the job is completed but task %s is reported running", desc, tk.name)
 			}
 			if cont && !blocked[tk.name] && !(tv.Status == "done" || tv.Status == "error") {
-				rt.Fatalf("[C08] %s: continue mode: task %s is independent of every failure but ended %q", desc, tk.name, tv.Status)
+				rt.Fatalf("["+prop+"] %s: continue mode: task %s is independent of every failure but ended %q", desc, tk.name, tv.Status)
 			}
 		}
 		plain := v.Completed && !v.Canceled && v.LastError == ""
 		if anyFail {
 			if plain {
-				rt.Fatalf("[C08] %s: a task failed but the job is reported as a plain success", desc)
+				rt.Fatalf("["+prop+"] %s: a task failed but the job is reported as a plain success", desc)
 			}
 			if v.LastError == "" {
-				rt.Fatalf("[C08] %s: a task failed but the job has no error", desc)
+				rt.Fatalf("["+prop+"] %s: a task failed but the job has no error", desc)
 			}
 			if cont && v.Canceled {
-				rt.Fatalf("[C08] %s: continue mode: the job is reported canceled", desc)
+				rt.Fatalf("["+prop+"] %s: continue mode: the job is reported canceled", desc)
 			}
 		} else if !plain {
-			rt.Fatalf("[C08] %s: nothing failed (or only under allow_failure) but the job is reported completed=%v canceled=%v lastError=%q", desc, v.Completed, v.Canceled, v.LastError)
+			rt.Fatalf("["+prop+"] %s: nothing failed (or only under allow_failure) but the job is reported completed=%v canceled=%v lastError=%q", desc, v.Completed, v.Canceled, v.LastError)
 		}
 		col.Add(desc, nontrivial, map[string]int{"non-allowed-failure": btoi(anyFail), "continue": btoi(cont), "failure-with-dependent": btoi(nontrivial)}, len(ts), desc)
 	})
@@ -285,8 +292,32 @@ func TestC04Real(t *testing.T) {
 		defer killMarker(marker)
 		ready := filepath.Join(dir, "ready")
 		defs := &definition.PipelinesDef{Pipelines: definition.PipelinesMap{"p": graphDef(vh, marker, ready, ts, false)}}
-		w := newRealWorld(rt, defs, 300*time.Millisecond)
+		// In a third of the cases a job of another pipeline is canceled a moment before: its task ignores the
+		// interrupt and takes the whole kill timeout to die. That is its business - the stop of this job's tasks
+		// does not wait for it.
+		stubborn := rapid.IntRange(0, 2).Draw(rt, "stubbornNeighbourCanceledJustBefore") == 0
+		nbMarker := "VFN" + strings.ReplaceAll(uuid.Must(uuid.NewV4()).String(), "-", "")[:12]
+		defer killMarker(nbMarker)
+		if stubborn {
+			defs.Pipelines["neighbour"] = definition.PipelineDef{Concurrency: 1, SourcePath: "gen", Tasks: map[string]definition.TaskDef{
+				"stubborn": {Script: []string{fmt.Sprintf("%s hang %s --ignore-int --ready %s.n --for 20s", vh, nbMarker, ready)}}}}
+		}
+		kt := 300 * time.Millisecond
+		if stubborn {
+			kt = 700 * time.Millisecond // (the neighbour takes that long to die)
+		}
+		w := newRealWorld(rt, defs, kt)
 		defer w.close()
+		var nb *prunner.PipelineJob
+		if stubborn {
+			var err error
+			if nb, err = w.pr.ScheduleAsync("neighbour", prunner.ScheduleOpts{}); err != nil {
+				rt.Fatalf("schedule: %v", err)
+			}
+			for limit := time.Now().Add(10 * time.Second); readyCount(ready+".n") < 1 && time.Now().Before(limit); {
+				time.Sleep(time.Millisecond)
+			}
+		}
 		job, err := w.pr.ScheduleAsync("p", prunner.ScheduleOpts{})
 		if err != nil {
 			rt.Fatalf("schedule: %v", err)
@@ -314,10 +345,16 @@ func TestC04Real(t *testing.T) {
 		} else {
 			time.Sleep(after)
 		}
+		if nb != nil {
+			_ = w.pr.CancelJob(nb.ID)
+		}
 		before, _ := w.view(job.ID)
 		cerr := w.pr.CancelJob(job.ID)
 		ack := time.Now()
 		desc := fmt.Sprintf("graph [%s] cancel after %s", describeGraph(ts), after)
+		if stubborn {
+			desc += " (a job of another pipeline, slow to die, canceled just before)"
+		}
 		if inGap {
 			desc = fmt.Sprintf("graph [%s] cancel between two tasks", describeGraph(ts))
 		}
@@ -405,6 +442,6 @@ func TestC04Real(t *testing.T) {
 			rt.Fatalf("[C04] %s: %d task processes are alive after the canceled job was reported finished", desc, len(alive))
 		}
 		nontrivial := startedAtAck < len(ts)
-		col.Add(desc, nontrivial, map[string]int{"cancel-with-tasks-left": btoi(nontrivial), "reported-canceled": btoi(v.Canceled), "cancel-between-two-tasks": btoi(inGap)}, len(ts), desc)
+		col.Add(desc, nontrivial, map[string]int{"cancel-with-tasks-left": btoi(nontrivial), "reported-canceled": btoi(v.Canceled), "cancel-between-two-tasks": btoi(inGap), "stubborn-neighbour-canceled-just-before": btoi(stubborn)}, len(ts), desc)
 	})
 }
